@@ -133,32 +133,41 @@ def pair_suite(ctx):
             items.append({"nq": nq, "gate": gs, "kind": kind, "cand": cand})
     gates = [gen.build_stmt(it["gate"]) for it in items]
     cands = [gate_objs(it["cand"]) for it in items]
-    mres = model.call_many([["check_replacement", ser.ser_gate(g), [ser.ser_gate(h) for h in c]] for g, c in zip(gates, cands)])
+    mres = model.call_many([pair_request(g, c) for g, c in zip(gates, cands)])
     ctx.suite("pairs", cases=len(items))
-    for it, g, c, (margin, r) in zip(items, gates, cands, mres):
-        ctx.seen(it)
-        ctx.bump("kind_" + it["kind"].split("+")[0].split("-")[0][:8])
-        im = impl_check(g, c)
-        mv = ser.canon(r)
-        mo = "accepted" if mv[0] == "ok" else mv[1]
-        if im != mo:
-            ctx.disagree("pairs", it, f"impl {im} model {mo}", margin)
-        eq = im == mo
-        ctx.bump("impl_" + im)
-        qs = oracles.stmt_qubits(g)
-        foreign = any(q not in qs for h in c for q in oracles.stmt_qubits(h))
-        if foreign:
-            if im == "accepted":
-                ctx.oracle_fail("pairs", it, "a proposal touching other qubits was accepted", eq)
-            continue
-        qm = {q: i for i, q in enumerate(sorted(qs))}
-        d = oracles.phase_dist(oracles.kraus_ops([g], qm, []), oracles.kraus_ops(c, qm, []))
-        if d <= 1e-9 and im != "accepted":
-            ctx.oracle_fail("pairs", it, f"a proposal equal to the gate up to global phase (distance {d:.2g}) was rejected ({im})", eq)
-        elif d > 1e-4 and im == "accepted":
-            ctx.oracle_fail("pairs", it, f"a proposal differing by {d:.3g} was accepted", eq)
+    for it, g, c, mr in zip(items, gates, cands, mres):
+        check_pair(ctx, it, g, c, mr)
     if items:
         ctx.sample(items[0])
+
+
+def pair_request(g, c):
+    return ["check_replacement", ser.ser_gate(g), [ser.ser_gate(h) for h in c]]
+
+
+def check_pair(ctx, it, g, c, mr):
+    margin, r = mr
+    ctx.seen(it)
+    ctx.bump("kind_" + it["kind"].split("+")[0].split("-")[0][:8])
+    im = impl_check(g, c)
+    mv = ser.canon(r)
+    mo = "accepted" if mv[0] == "ok" else mv[1]
+    if im != mo:
+        ctx.disagree("pairs", it, f"impl {im} model {mo}", margin)
+    eq = im == mo
+    ctx.bump("impl_" + im)
+    qs = oracles.stmt_qubits(g)
+    foreign = any(q not in qs for h in c for q in oracles.stmt_qubits(h))
+    if foreign:
+        if im == "accepted":
+            ctx.oracle_fail("pairs", it, "a proposal touching other qubits was accepted", eq)
+        return
+    qm = {q: i for i, q in enumerate(sorted(qs))}
+    d = oracles.phase_dist(oracles.kraus_ops([g], qm, []), oracles.kraus_ops(c, qm, []))
+    if d <= 1e-9 and im != "accepted":
+        ctx.oracle_fail("pairs", it, f"a proposal equal to the gate up to global phase (distance {d:.2g}) was rejected ({im})", eq)
+    elif d > 1e-4 and im == "accepted":
+        ctx.oracle_fail("pairs", it, f"a proposal differing by {d:.3g} was accepted", eq)
 
 
 class FaultyDecomposer:
@@ -186,8 +195,6 @@ class FaultyDecomposer:
 
 
 def loop_suite(ctx):
-    from opensquirrel.decomposer.general_decomposer import Decomposer
-
     rng = ctx.rng
     n_cases = 0
     for _ in range(ctx.pick(150, 1500)):
@@ -198,61 +205,69 @@ def loop_suite(ctx):
             continue
         for k in range(len(gate_pos)):
             mode = rng.choice(["wrong", "raise", "foreign"])
-            c = gen.build_circuit(nq + 1, 1, specs)
-            before = list(c.ir.statements)
-            case = {"nq": nq + 1, "nb": 1, "specs": specs, "k": k, "mode": mode}
-            kth = before[gate_pos[k]]
-            if mode == "wrong" and type(kth).__name__ == "BlochSphereRotation" and \
-                    oracles.phase_dist(oracles.gate_small(kth)[0], oracles.STD1["H"]) < 1e-3:
-                continue
-            fd = FaultyDecomposer(k, mode)
-            dec = type("D", (Decomposer,), {"decompose": lambda self, g: fd.decompose(g)})()
-            try:
-                c.decompose(dec)
-                err = None
-            except Exception as e:  # noqa: BLE001
-                err = type(e).__name__
-            after = list(c.ir.statements)
-            n_cases += 1
-            ctx.seen(case)
-            # model expectation (theorem decompose_failure_state): rewritten prefix ++ offending gate ++ untouched suffix
-            pre_specs = specs[:gate_pos[k]]
-            cp = gen.build_circuit(nq + 1, 1, pre_specs)
-            (m, r), = model.call_many([["decompose", Sym("zyz"), ser.ser_stmts(cp.ir.statements)]])
-            merr, mpost = implrun.model_outcome(["decompose", "zyz"], r)
-            if merr is None:
-                suffix = implrun.canon_post(before[gate_pos[k]:])
-                got = implrun.canon_post(after)
-                want_len = len(mpost) + len(suffix)
-                d = None
-                if len(got) != want_len:
-                    d = f"state has {len(got)} statements, model predicts {want_len}"
-                else:
-                    d = ser.struct_diff(strip_oids(got[:len(mpost)]), strip_oids(mpost), 2e-7) or \
-                        ser.struct_diff(strip_oids(got[len(mpost):]), strip_oids(suffix), 0)
-                if d:
-                    ctx.disagree("loop", case, d, m)
-                eq = d is None
-            else:
-                eq = None
-            if err is None:
-                ctx.oracle_fail("loop", case, "a wrong / raising proposal did not make the pass fail", eq)
-                continue
-            # the circuit is left well-formed and equivalent to the original
-            for s in after:
-                qs = oracles.stmt_qubits(s)
-                if len(set(qs)) != len(qs) or any(not (0 <= q < nq + 1) for q in qs):
-                    ctx.oracle_fail("loop", case, f"ill-formed statement after the failure: {s!r}", eq)
-                    break
-            else:
-                ok, why = oracles.kraus_equivalent(before, after, 2e-6 * (1 + len(after)))
-                if not ok:
-                    ctx.oracle_fail("loop", case, "after the rejected proposal the circuit is not equivalent to the original: " + why, eq)
-                # the suffix is untouched (same objects)
-                tail = before[gate_pos[k]:]
-                if after[-len(tail):] != tail or any(x is not y for x, y in zip(after[-len(tail):], tail)):
-                    ctx.oracle_fail("loop", case, "statements after the failing gate were touched", eq)
+            n_cases += check_loop(ctx, {"nq": nq + 1, "nb": 1, "specs": specs, "k": k, "mode": mode})
     ctx.suite("loop_failure_at_k", cases=n_cases)
+
+
+def check_loop(ctx, case):
+    """a decomposer that is wrong / raises / touches a foreign qubit at gate number k; returns 1 if the case was run"""
+    from opensquirrel.decomposer.general_decomposer import Decomposer
+
+    specs, k, mode, n = case["specs"], case["k"], case["mode"], case["nq"]
+    gate_pos = [i for i, s in enumerate(specs) if gen.is_gate_spec(s)]
+    c = gen.build_circuit(n, 1, specs)
+    before = list(c.ir.statements)
+    kth = before[gate_pos[k]]
+    if mode == "wrong" and type(kth).__name__ == "BlochSphereRotation" and \
+            oracles.phase_dist(oracles.gate_small(kth)[0], oracles.STD1["H"]) < 1e-3:
+        return 0
+    fd = FaultyDecomposer(k, mode)
+    dec = type("D", (Decomposer,), {"decompose": lambda self, g: fd.decompose(g)})()
+    try:
+        c.decompose(dec)
+        err = None
+    except Exception as e:  # noqa: BLE001
+        err = type(e).__name__
+    after = list(c.ir.statements)
+    ctx.seen(case)
+    # model expectation (theorem decompose_failure_state): rewritten prefix ++ offending gate ++ untouched suffix
+    pre_specs = specs[:gate_pos[k]]
+    cp = gen.build_circuit(n, 1, pre_specs)
+    (m, r), = model.call_many([["decompose", Sym("zyz"), ser.ser_stmts(cp.ir.statements)]])
+    merr, mpost = implrun.model_outcome(["decompose", "zyz"], r)
+    if merr is None:
+        suffix = implrun.canon_post(before[gate_pos[k]:])
+        got = implrun.canon_post(after)
+        want_len = len(mpost) + len(suffix)
+        d = None
+        if len(got) != want_len:
+            d = f"state has {len(got)} statements, model predicts {want_len}"
+        else:
+            d = ser.struct_diff(strip_oids(got[:len(mpost)]), strip_oids(mpost), 2e-7) or \
+                ser.struct_diff(strip_oids(got[len(mpost):]), strip_oids(suffix), 0)
+        if d:
+            ctx.disagree("loop", case, d, m)
+        eq = d is None
+    else:
+        eq = None
+    if err is None:
+        ctx.oracle_fail("loop", case, "a wrong / raising proposal did not make the pass fail", eq)
+        return 1
+    # the circuit is left well-formed and equivalent to the original
+    for s in after:
+        qs = oracles.stmt_qubits(s)
+        if len(set(qs)) != len(qs) or any(not (0 <= q < n) for q in qs):
+            ctx.oracle_fail("loop", case, f"ill-formed statement after the failure: {s!r}", eq)
+            break
+    else:
+        ok, why = oracles.kraus_equivalent(before, after, 2e-6 * (1 + len(after)))
+        if not ok:
+            ctx.oracle_fail("loop", case, "after the rejected proposal the circuit is not equivalent to the original: " + why, eq)
+        # the suffix is untouched (same objects)
+        tail = before[gate_pos[k]:]
+        if after[-len(tail):] != tail or any(x is not y for x, y in zip(after[-len(tail):], tail)):
+            ctx.oracle_fail("loop", case, "statements after the failing gate were touched", eq)
+    return 1
 
 
 def strip_oids(stmts):
@@ -280,38 +295,46 @@ def replace_suite(ctx):
     evals = [dc.evaluate(c) for c in cases]
     eqs = dc.compare_with_model(ctx, "replace", cases, evals)
     for case, ev, eq in zip(cases, evals, eqs):
-        ctx.seen(case)
-        target, rule = case["pass"][1], case["pass"][2]
-        before, after = ev["before"], ev["after"]
-        has_target = any(getattr(s, "generator", None) is not None and s.generator.__name__ == target for s in before)
-        if rule == "wrong":
-            if has_target and ev["err"] is None:
-                ctx.oracle_fail("replace", case, "a wrong replacement rule was accepted", eq)
-            if ev["err"] is not None:
-                ok, why = oracles.kraus_equivalent(before, after, 2e-6 * (1 + len(after)))
-                if not ok:
-                    ctx.oracle_fail("replace", case, "after the rejected rule the circuit is not equivalent to the original: " + why, eq)
-            continue
-        if ev["err"] is not None:
-            ctx.oracle_fail("replace", case, f"a correct replacement rule was rejected ({ev['err']})", eq)
-            continue
-        # only gates with the requested name are rewritten; others are the same objects, in place
-        others_b = [s for s in before if not (getattr(s, "generator", None) is not None and s.generator.__name__ == target)]
-        ids_after = [id(s) for s in after]
-        pos = [ids_after.index(id(s)) if id(s) in ids_after else -1 for s in others_b]
-        if -1 in pos or pos != sorted(pos):
-            ctx.oracle_fail("replace", case, "a statement that does not have the requested name was rewritten or moved", eq)
-            continue
-        if any(getattr(s, "generator", None) is not None and s.generator.__name__ == target and id(s) in {id(x) for x in before} for s in after):
-            ctx.oracle_fail("replace", case, "a gate with the requested name was left in place", eq)
-            continue
-        ok, why = oracles.kraus_equivalent(before, after, 2e-6 * (1 + len(after)))
-        if not ok:
-            ctx.oracle_fail("replace", case, "replacement changed the operation: " + why, eq)
+        check_replace(ctx, case, ev, eq)
     ctx.suite("replace", cases=len(cases))
 
 
-def run(ctx):
+def check_replace(ctx, case, ev, eq):
+    ctx.seen(case)
+    target, rule = case["pass"][1], case["pass"][2]
+    before, after = ev["before"], ev["after"]
+    has_target = any(getattr(s, "generator", None) is not None and s.generator.__name__ == target for s in before)
+    if rule == "wrong":
+        if has_target and ev["err"] is None:
+            ctx.oracle_fail("replace", case, "a wrong replacement rule was accepted", eq)
+        if ev["err"] is not None:
+            ok, why = oracles.kraus_equivalent(before, after, 2e-6 * (1 + len(after)))
+            if not ok:
+                ctx.oracle_fail("replace", case, "after the rejected rule the circuit is not equivalent to the original: " + why, eq)
+        return
+    if ev["err"] is not None:
+        ctx.oracle_fail("replace", case, f"a correct replacement rule was rejected ({ev['err']})", eq)
+        return
+    # only gates with the requested name are rewritten; others are the same objects, in place
+    others_b = [s for s in before if not (getattr(s, "generator", None) is not None and s.generator.__name__ == target)]
+    ids_after = [id(s) for s in after]
+    pos = [ids_after.index(id(s)) if id(s) in ids_after else -1 for s in others_b]
+    if -1 in pos or pos != sorted(pos):
+        ctx.oracle_fail("replace", case, "a statement that does not have the requested name was rewritten or moved", eq)
+        return
+    if any(getattr(s, "generator", None) is not None and s.generator.__name__ == target and id(s) in {id(x) for x in before} for s in after):
+        ctx.oracle_fail("replace", case, "a gate with the requested name was left in place", eq)
+        return
+    ok, why = oracles.kraus_equivalent(before, after, 2e-6 * (1 + len(after)))
+    if not ok:
+        ctx.oracle_fail("replace", case, "replacement changed the operation: " + why, eq)
+
+
+SUITES = {"pairs": pair_suite, "loop": loop_suite, "replace": replace_suite}
+
+
+def run(ctx, last=None):
+    """last: stop after that suite (a replay re-creates the history of a case by running the suites up to its own)"""
     from harness.props import sem_common
 
     sem_common.run_semantics_suite(ctx, ctx.pick(60, 600))
@@ -319,21 +342,40 @@ def run(ctx):
              "duplicated/reordered element, control/target swapped, a relative phase on one operand, an extra gate on a foreign "
              "qubit, the empty list; for every gate position k a decomposer correct before k and wrong/raising/foreign at k; "
              "replace() with correct, wrong and object-sharing rules; non-trivial = every case")
-    pair_suite(ctx)
-    loop_suite(ctx)
-    replace_suite(ctx)
+    for name, suite in SUITES.items():
+        suite(ctx)
+        if name == last:
+            break
+
+
+def replay_alone(ctx, suite, case):
+    from harness.props import decomp_common as dc
+
+    if suite == "pairs":
+        g, c = gen.build_stmt(case["gate"]), gate_objs(case["cand"])
+        check_pair(ctx, case, g, c, model.call_many([pair_request(g, c)])[0])
+    elif suite == "loop":
+        check_loop(ctx, case)
+    else:
+        ev = dc.evaluate(case)
+        check_replace(ctx, case, ev, dc.compare_with_model(ctx, "replace", [case], [ev])[0])
 
 
 def replay(ctx, payload):
-    case = payload.get("case") or (payload.get("first_disagreement") or {}).get("case")
-    if "gate" in case:
-        g = gen.build_stmt(case["gate"])
-        c = gate_objs(case["cand"])
-        im = impl_check(g, c)
-        qs = oracles.stmt_qubits(g)
-        qm = {q: i for i, q in enumerate(sorted(qs))}
-        foreign = any(q not in qs for h in c for q in oracles.stmt_qubits(h))
-        d = None if foreign else oracles.phase_dist(oracles.kraus_ops([g], qm, []), oracles.kraus_ops(c, qm, []))
-        fails = (foreign and im == "accepted") or (d is not None and ((d <= 1e-9 and im != "accepted") or (d > 1e-4 and im == "accepted")))
-        return {"impl": im, "distance": d, "foreign": foreign, "fails": bool(fails)}
-    return {"case": case, "fails": payload.get("kind") == "oracle"}
+    from harness import framework
+    from harness.props import sem_common
+
+    suite, case = framework.replay_target(payload)
+    if case is None:
+        return framework.replay_nothing(payload)
+    if sem_common.is_semantics(suite, case) and "gate" not in case:
+        return sem_common.replay(ctx, case)
+    suite = "pairs" if "gate" in case else "loop" if "mode" in case else "replace" if "pass" in case else None
+    if suite is None:
+        return framework.replay_nothing(payload, "case of no suite of this property")
+    # the library may share state between calls (a cache filled by the gates of earlier cases): first the history of the
+    # run again, then the case on its own
+    extra = framework.rerun_history(ctx, payload, case, lambda scratch: run(scratch, last=suite))
+    if not (ctx.oracle_failures or ctx.disagreements):
+        replay_alone(ctx, suite, case)
+    return framework.replay_result(ctx, **extra)
